@@ -607,7 +607,12 @@ static int replay(const string& c) {
   if (!findVariant(all, m["type"], m["div"], unhex(m["vals"]), m["range"], &v)) { printf("unknown variant\n"); return 2; }
   string err;
   const DataField* f = createField(v, &err);
-  if (!f) { printf("definition rejected: %s\n", err.c_str()); return 0; }
+  if (!f) {
+    printf("definition: type=%s divisor=%s values=%s range=%s\ndefinition rejected: %s\n", v.t->id, v.div.c_str(), v.values.c_str(), v.range.c_str(), err.c_str());
+    if (m["k"] == "cfg") { printf("VIOLATES rule=config-rejected\n"); return 1; }
+    return 0;
+  }
+  if (m["k"] == "cfg") { printf("definition: type=%s divisor=%s values=%s range=%s accepted\nOK\n", v.t->id, v.div.c_str(), v.values.c_str(), v.range.c_str()); return 0; }
   string log;
   Verdict vd;
   if (m["k"] == "f") {
@@ -640,7 +645,15 @@ int main(int argc, char** argv) {
     if (R.expired()) break;
     string err;
     const DataField* f = createField(v, &err);
-    if (!f) { refused++; R.count("definitions_refused"); continue; }
+    if (!f) {
+      // every variant of the enumerated universe is a valid definition (invalid divisor combinations are left out
+      // when the variants are built): a refusal would make the check vacuous for this variant
+      refused++; R.count("definitions_refused");
+      R.violation("C07/config-rejected/" + typeClass(v) + (v.hasCfg ? "/range" : (v.isList() ? "/list" : "/plain")),
+                  string("valid definition refused: ") + v.t->id + (v.div.empty() ? "" : "," + v.div) + (v.range.empty() ? "" : " range " + v.range) + (v.values.empty() ? "" : " values " + v.values) + ": " + err,
+                  string("k=cfg;type=") + v.t->id + ";div=" + v.div + ";vals=" + vp::hex((const unsigned char*)v.values.data(), v.values.size()) + ";range=" + v.range);
+      continue;
+    }
     created++;
     R.count("definitions");
     vector<Text> texts = genTexts(v, thorough);
